@@ -112,7 +112,7 @@ func Specs(t Target) []SettingSpec {
 			zcnsc.HealthCheckPeriod:   {Kind: "time.duration", Example: "1h", View: "1h0m0s", With: need},
 		}
 		for _, f := range zcnsc.CostFunctions {
-			m["cost."+f] = SettingSpec{Kind: "Cost", Example: "150", With: need, Immutable: true,
+			m["cost."+f] = SettingSpec{Kind: "Cost", Example: "151", With: need, Immutable: true,
 				Note: "listed in the view but UpdateConfig rejects every cost.* key (and the bare key \"cost\")"}
 		}
 		for name, s := range m {
@@ -142,7 +142,7 @@ func fromNames(names, costFns []string, m map[string]SettingSpec) []SettingSpec 
 		out = append(out, s)
 	}
 	for _, f := range costFns {
-		out = append(out, SettingSpec{Name: "cost." + f, Kind: "Cost", Example: "150", View: "150"})
+		out = append(out, SettingSpec{Name: "cost." + f, Kind: "Cost", Example: "151", View: "151"})
 	}
 	return out
 }
@@ -155,7 +155,7 @@ func fromKinds(kinds map[string]int, exs map[string]SettingSpec) []SettingSpec {
 		s.Name = name
 		s.Kind = kindName(k)
 		if s.Example == "" && strings.HasPrefix(name, "cost.") {
-			s.Example, s.View = "150", "150"
+			s.Example, s.View = "151", "151"
 		}
 		out = append(out, s)
 	}
@@ -193,52 +193,52 @@ func minerExamples(owner string) map[string]SettingSpec {
 
 func storageExamples(owner string) map[string]SettingSpec {
 	return map[string]SettingSpec{
-		"max_stake":                       {Example: "10000", View: "10000", Note: "validate: max_stake >= min_stake"},
-		"min_stake":                       {Example: "0.02", View: "0.02"},
-		"min_stake_per_delegate":          {Example: "2", View: "2"},
-		"time_unit":                       {Example: "360h", View: "360h0m0s", Note: "validate: > 1s"},
-		"min_alloc_size":                  {Example: "2048", View: "2048"},
-		"max_challenge_completion_rounds": {Example: "600", View: "600"},
-		"min_blobber_capacity":            {Example: "1024", View: "1024"},
-		"readpool.min_lock":               {Example: "0.1", View: "0.1"},
-		"writepool.min_lock":              {Example: "0.2", View: "0.2"},
-		"stakepool.min_lock_period":       {Example: "1h", View: "1h0m0s"},
-		"stakepool.kill_slash":            {Example: "0.4", View: "0.4", Note: "validate: in [0,1]"},
-		"max_total_free_allocation":       {Example: "5000", View: "5000"},
-		"max_individual_free_allocation":  {Example: "50", View: "50"},
-		"cancellation_charge":             {Example: "0.3", View: "0.3", Note: "validate: in [0,1]"},
-		"free_allocation_settings.data_shards":            {Example: "5", View: "5"},
-		"free_allocation_settings.parity_shards":          {Example: "3", View: "3"},
-		"free_allocation_settings.size":                   {Example: "20000000", View: "20000000"},
-		"free_allocation_settings.read_price_range.min":   {Example: "0.5", View: "0.5", With: map[string]string{"free_allocation_settings.read_price_range.max": "1"}, Note: "validate: min <= max (shipped max is 0)"},
-		"free_allocation_settings.read_price_range.max":   {Example: "1", View: "1"},
-		"free_allocation_settings.write_price_range.min":  {Example: "0.5", View: "0.5"},
-		"free_allocation_settings.write_price_range.max":  {Example: "2", View: "2"},
-		"free_allocation_settings.read_pool_fraction":     {Example: "0.1", View: "0.1", Note: "validate: in [0,1]"},
-		"validator_reward":                 {Example: "0.05", View: "0.05", Note: "validate: in [0,1]"},
-		"blobber_slash":                    {Example: "0.2", View: "0.2", Note: "validate: in [0,1]"},
-		"health_check_period":              {Example: "1h", View: "1h0m0s", Note: "validate: > 0"},
-		"max_blobbers_per_allocation":      {Example: "30", View: "30", Note: "validate: > 0"},
-		"max_read_price":                   {Example: "5", View: "5"},
-		"max_write_price":                  {Example: "6", View: "6", Note: "validate: >= min_write_price"},
-		"min_write_price":                  {Example: "0.002", View: "0.002"},
-		"max_file_size":                    {Example: "1000000000", View: "1000000000"},
-		"challenge_enabled":                {Example: "false", View: "false"},
-		"challenge_generation_gap":         {Example: "5", View: "5"},
-		"validators_per_challenge":         {Example: "2", View: "2", Note: "validate: > 0"},
-		"num_validators_rewarded":          {Example: "5", View: "5", Note: "validate: > 0"},
-		"max_blobber_select_for_challenge": {Example: "4", View: "4", Note: "validate: > 0"},
-		"max_delegates":                    {Example: "100", View: "100", Note: "validate: >= 1"},
-		"block_reward.block_reward":        {Example: "0.05", View: "0.05"},
-		"block_reward.qualifying_stake":    {Example: "2", View: "2"},
-		"block_reward.gamma.alpha":         {Example: "0.3", View: "0.3", Note: "validate: > 0"},
-		"block_reward.gamma.a":             {Example: "11", View: "11", Note: "validate: > 0"},
-		"block_reward.gamma.b":             {Example: "8", View: "8", Note: "validate: > 0"},
-		"block_reward.zeta.i":              {Example: "2", View: "2", Note: "validate: > 0"},
-		"block_reward.zeta.k":              {Example: "0.8", View: "0.8", Note: "validate: > 0"},
-		"block_reward.zeta.mu":             {Example: "0.3", View: "0.3", Note: "validate: > 0"},
-		"owner_id":                         {Example: owner, View: owner},
-		"max_charge":                       {Example: "0.4", View: "0.4", Note: "validate: in [0,1]"},
+		"max_stake":                                      {Example: "10000", View: "10000", Note: "validate: max_stake >= min_stake"},
+		"min_stake":                                      {Example: "0.02", View: "0.02"},
+		"min_stake_per_delegate":                         {Example: "2", View: "2"},
+		"time_unit":                                      {Example: "360h", View: "360h0m0s", Note: "validate: > 1s"},
+		"min_alloc_size":                                 {Example: "2048", View: "2048"},
+		"max_challenge_completion_rounds":                {Example: "600", View: "600"},
+		"min_blobber_capacity":                           {Example: "1024", View: "1024"},
+		"readpool.min_lock":                              {Example: "0.1", View: "0.1"},
+		"writepool.min_lock":                             {Example: "0.2", View: "0.2"},
+		"stakepool.min_lock_period":                      {Example: "1h", View: "1h0m0s"},
+		"stakepool.kill_slash":                           {Example: "0.4", View: "0.4", Note: "validate: in [0,1]"},
+		"max_total_free_allocation":                      {Example: "5000", View: "5000"},
+		"max_individual_free_allocation":                 {Example: "50", View: "50"},
+		"cancellation_charge":                            {Example: "0.3", View: "0.3", Note: "validate: in [0,1]"},
+		"free_allocation_settings.data_shards":           {Example: "5", View: "5"},
+		"free_allocation_settings.parity_shards":         {Example: "3", View: "3"},
+		"free_allocation_settings.size":                  {Example: "20000000", View: "20000000"},
+		"free_allocation_settings.read_price_range.min":  {Example: "0.5", View: "0.5", With: map[string]string{"free_allocation_settings.read_price_range.max": "1"}, Note: "validate: min <= max (shipped max is 0)"},
+		"free_allocation_settings.read_price_range.max":  {Example: "1", View: "1"},
+		"free_allocation_settings.write_price_range.min": {Example: "0.5", View: "0.5"},
+		"free_allocation_settings.write_price_range.max": {Example: "2", View: "2"},
+		"free_allocation_settings.read_pool_fraction":    {Example: "0.1", View: "0.1", Note: "validate: in [0,1]"},
+		"validator_reward":                               {Example: "0.05", View: "0.05", Note: "validate: in [0,1]"},
+		"blobber_slash":                                  {Example: "0.2", View: "0.2", Note: "validate: in [0,1]"},
+		"health_check_period":                            {Example: "1h", View: "1h0m0s", Note: "validate: > 0"},
+		"max_blobbers_per_allocation":                    {Example: "30", View: "30", Note: "validate: > 0"},
+		"max_read_price":                                 {Example: "5", View: "5"},
+		"max_write_price":                                {Example: "6", View: "6", Note: "validate: >= min_write_price"},
+		"min_write_price":                                {Example: "0.002", View: "0.002"},
+		"max_file_size":                                  {Example: "1000000000", View: "1000000000"},
+		"challenge_enabled":                              {Example: "false", View: "false"},
+		"challenge_generation_gap":                       {Example: "5", View: "5"},
+		"validators_per_challenge":                       {Example: "2", View: "2", Note: "validate: > 0"},
+		"num_validators_rewarded":                        {Example: "5", View: "5", Note: "validate: > 0"},
+		"max_blobber_select_for_challenge":               {Example: "4", View: "4", Note: "validate: > 0"},
+		"max_delegates":                                  {Example: "100", View: "100", Note: "validate: >= 1"},
+		"block_reward.block_reward":                      {Example: "0.05", View: "0.05"},
+		"block_reward.qualifying_stake":                  {Example: "2", View: "2"},
+		"block_reward.gamma.alpha":                       {Example: "0.3", View: "0.3", Note: "validate: > 0"},
+		"block_reward.gamma.a":                           {Example: "11", View: "11", Note: "validate: > 0"},
+		"block_reward.gamma.b":                           {Example: "8", View: "8", Note: "validate: > 0"},
+		"block_reward.zeta.i":                            {Example: "2", View: "2", Note: "validate: > 0"},
+		"block_reward.zeta.k":                            {Example: "0.8", View: "0.8", Note: "validate: > 0"},
+		"block_reward.zeta.mu":                           {Example: "0.3", View: "0.3", Note: "validate: > 0"},
+		"owner_id":                                       {Example: owner, View: owner},
+		"max_charge":                                     {Example: "0.4", View: "0.4", Note: "validate: in [0,1]"},
 	}
 }
 
@@ -257,11 +257,13 @@ func globalsSpecs() []SettingSpec {
 		config.Strings:  {"pour,wait", "pour,wait"},
 	}
 	special := map[string]ex{
-		"server_chain.block.proposal.wait_mode":          {"dynamic", "dynamic"},
-		"server_chain.client.signature_scheme":           {"ed25519", "ed25519"},
+		"server_chain.block.proposal.wait_mode":         {"dynamic", "dynamic"},
+		"server_chain.client.signature_scheme":          {"ed25519", "ed25519"},
 		"server_chain.messages.verification_tickets_to": {"generator", "generator"},
-		"server_chain.block_rewards":                     {"false", "false"},
-		"server_chain.block.reuse_txns":                  {"true", "true"},
+		"server_chain.block_rewards":                    {"false", "false"},
+		"server_chain.block.reuse_txns":                 {"true", "true"},
+		"server_chain.view_change":                      {"true", "true"},
+		"server_chain.dbs.settings.debug":               {"true", "true"},
 	}
 	var out []SettingSpec
 	for name, info := range config.GlobalSettingInfo {
